@@ -99,12 +99,12 @@ def r7_cfg_defmt(text, log):
                     edits.append((t.start, toks[m].end, _nl_pad(orig, "")))
                     log.append(("R7", "cfg(feature=defmt) statement removed: " + norm(orig)[:80]))
                     k = m
-                elif attr.startswith("# [ doc") or attr.startswith("# [ cfg_attr ( feature = \"defmt\""):
+                elif attr.startswith("# [ doc") or attr.startswith("# [ cfg_attr ( feature = \"defmt\"") or attr == norm('#[cfg(feature = "std")]'):
                     edits.append((t.start, toks[c].end, ""))
                     log.append(("R7", "attribute removed: " + attr))
                     k = c
                 elif attr.startswith("# [ derive"):
-                    keep = [d for d in ("Clone", "Copy") if re.search(r"\b%s\b" % d, attr)]
+                    keep = [d for d in ("Clone", "Copy", "Default") if re.search(r"\b%s\b" % d, attr)]
                     rep = "#[derive(%s)]" % ", ".join(keep) if keep else ""
                     edits.append((t.start, toks[c].end, rep))
                     log.append(("R7", f"{attr} -> {rep or 'removed'}"))
@@ -439,7 +439,7 @@ def weave_fn(text, directives, canary=False):
         else:
             raise Unsupported(f"unknown directive #{d.kind}")
     if canary:
-        if sh.body_open is not None and has_spec:
+        if sh.body_open is not None:
             add(toks[sh.body_open].end, "\nassert(false); // CANARY body\n", Directive("canary", "body", 0), order=3)
         for li, (kw, bo, bc) in enumerate(loops):
             if any(d.kind == "loop" and d.arg.split()[0] == str(li + 1) for d in directives):
